@@ -181,10 +181,12 @@ def run_project(st, pat, label, old, new, fmt, lid, arrangement, files, entries,
                     return None, None, None
     world.clear_dir(".")
     world.write_tree(tree)
+    by_mtime = os.stat("bystander.txt").st_mtime_ns
     o = world.cli("update", "--no-fetch", "--ignore-vcs-tag", "--set-version", new_text)
     st.evaluations += 1
     st.transitions += 1
     after = world.read_tree(".")
+    by_touched = os.stat("bystander.txt").st_mtime_ns != by_mtime if os.path.exists("bystander.txt") else True
     case = {"pattern": pat.text, "states": label, "old": old_text, "new": new_text, "format": fmt, "layout": lid}
     if set_version is not None:
         case["respelled"] = True
@@ -226,6 +228,8 @@ def run_project(st, pat, label, old, new, fmt, lid, arrangement, files, entries,
         for name in after:
             if name not in tree:
                 problems.append(("bystander", name, "new file created"))
+        if by_touched:
+            problems.append(("bystander", "bystander.txt", "file not named in the configuration was opened for writing (mtime changed)"))
     for kind, fname, why in problems:
         st.outcomes["violation"] += 1
         st.violation(f"{prefix}:{kind}:{arrangement}:{label if kind == 'occurrence' and arrangement == 'own-lines' else ''}".rstrip(":"),
